@@ -133,6 +133,10 @@ fn sorted_windows(mut v: Vec<(u8, Bytes)>) -> Vec<(u8, Bytes)> {
 }
 
 pub fn val_for(kind: Kind) -> BoxedStrategy<Val> {
+    val_for_n(kind, aname())
+}
+
+pub fn val_for_n(kind: Kind, names: BoxedStrategy<AName>) -> BoxedStrategy<Val> {
     match kind {
         Kind::U8 => u8b().prop_map(Val::U8).boxed(),
         Kind::U16 => u16b().prop_map(Val::U16).boxed(),
@@ -140,7 +144,7 @@ pub fn val_for(kind: Kind) -> BoxedStrategy<Val> {
         Kind::U32 => u32b().prop_map(Val::U32).boxed(),
         Kind::U48 => (u32b(), u16b()).prop_map(|(a, b)| Val::U64(((b as u64) << 32) | a as u64)).boxed(),
         Kind::Fixed(n) => bytes_n(n).prop_map(Val::Bytes).boxed(),
-        Kind::Name(_) => aname().prop_map(Val::Name).boxed(),
+        Kind::Name(_) => names.prop_map(Val::Name).boxed(),
         Kind::CharStr => charstr().prop_map(Val::Bytes).boxed(),
         Kind::Rest => tail().prop_map(Val::Bytes).boxed(),
         Kind::CharStrList => vec(charstr(), 1..=4).prop_map(Val::Strs).boxed(),
@@ -155,7 +159,7 @@ pub fn val_for(kind: Kind) -> BoxedStrategy<Val> {
             Just(Gw::None),
             bytes_n(4).prop_map(Gw::V4),
             bytes_n(16).prop_map(Gw::V6),
-            aname().prop_map(Gw::Name),
+            names.prop_map(Gw::Name),
         ]
         .prop_map(Val::Gateway)
         .boxed(),
@@ -164,13 +168,17 @@ pub fn val_for(kind: Kind) -> BoxedStrategy<Val> {
 
 /// values for one typed record of `code` (LOC version fixed to 0: the writer refuses others)
 pub fn typed(code: u16) -> BoxedStrategy<ARData> {
+    typed_n(code, aname())
+}
+
+pub fn typed_n(code: u16, names: BoxedStrategy<AName>) -> BoxedStrategy<ARData> {
     let info = type_info(code).expect("typed code");
     let strategies: Vec<BoxedStrategy<Val>> = value_fields(info)
         .map(|f| {
             if code == 29 && f.name == "version" {
                 Just(Val::U8(0)).boxed()
             } else {
-                val_for(f.kind)
+                val_for_n(f.kind, names.clone())
             }
         })
         .collect();
@@ -185,8 +193,12 @@ pub fn record_codes() -> Vec<u16> {
 pub const UNKNOWN_CODES: [u16; 10] = [10, 19, 24, 25, 99, 250, 251, 255, 32768, 65535];
 
 pub fn ardata() -> BoxedStrategy<ARData> {
+    ardata_n(aname())
+}
+
+pub fn ardata_n(names: BoxedStrategy<AName>) -> BoxedStrategy<ARData> {
     prop_oneof![
-        20 => select(record_codes()).prop_flat_map(typed),
+        20 => select(record_codes()).prop_flat_map(move |c| typed_n(c, names.clone())),
         2 => (select(UNKNOWN_CODES.to_vec()), vec(any::<u8>(), 1..=40).prop_map(Bytes)).prop_map(|(code, data)| ARData::Unknown { code, data }),
         1 => prop_oneof![select(record_codes()), select(UNKNOWN_CODES.to_vec())].prop_map(|code| ARData::Empty { code }),
     ]
@@ -194,7 +206,11 @@ pub fn ardata() -> BoxedStrategy<ARData> {
 }
 
 pub fn arecord_with(rd: BoxedStrategy<ARData>) -> BoxedStrategy<ARecord> {
-    (aname(), select(CLASSES.to_vec()), any::<bool>(), u32b(), rd)
+    arecord_with_n(rd, aname())
+}
+
+pub fn arecord_with_n(rd: BoxedStrategy<ARData>, names: BoxedStrategy<AName>) -> BoxedStrategy<ARecord> {
+    (names, select(CLASSES.to_vec()), any::<bool>(), u32b(), rd)
         .prop_map(|(name, class, cache_flush, ttl, rdata)| ARecord {
             name,
             class,
@@ -216,8 +232,12 @@ pub fn qtypes() -> Vec<u16> {
 }
 
 pub fn aquestion() -> BoxedStrategy<AQuestion> {
+    aquestion_n(aname())
+}
+
+pub fn aquestion_n(names: BoxedStrategy<AName>) -> BoxedStrategy<AQuestion> {
     (
-        aname(),
+        names,
         select(qtypes()),
         select(vec![1u16, 2, 3, 4, 254, 255]),
         any::<bool>(),
@@ -271,13 +291,18 @@ pub fn fit(mut p: APacket) -> APacket {
 
 /// packets within the documented construction domain (named opcode / rcode, rcode > 15 only with EDNS)
 pub fn apacket(max_per_section: usize) -> BoxedStrategy<APacket> {
+    apacket_n(max_per_section, aname())
+}
+
+pub fn apacket_n(max_per_section: usize, names: BoxedStrategy<AName>) -> BoxedStrategy<APacket> {
+    let rec = || arecord_with_n(ardata_n(names.clone()), names.clone());
     (
         (any::<u16>(), flag_bits(), select(NAMED_OPCODES.to_vec()), select(NAMED_RCODES.to_vec())),
         proptest::option::weighted(0.3, aedns()),
-        vec(aquestion(), 0..=max_per_section),
-        vec(arecord(), 0..=max_per_section),
-        vec(arecord(), 0..=max_per_section.min(2)),
-        vec(arecord(), 0..=max_per_section.min(3)),
+        vec(aquestion_n(names.clone()), 0..=max_per_section),
+        vec(rec(), 0..=max_per_section),
+        vec(rec(), 0..=max_per_section.min(2)),
+        vec(rec(), 0..=max_per_section.min(3)),
     )
         .prop_map(|((id, flags, opcode, rcode), edns, questions, answers, authorities, additionals)| {
             let mut edns = edns;
@@ -329,4 +354,62 @@ pub fn filler(total: usize) -> Vec<ARecord> {
 /// map an index monotonically onto 0..len (shrinks towards 0)
 pub fn pick(i: u16, len: usize) -> usize {
     ((i as usize) * len) >> 16
+}
+
+/// names arranged as suffix trees over a tiny label pool: owner, question and RDATA names share
+/// suffixes all the time, and pairs differ only in a leading or a trailing label
+pub fn share_name() -> BoxedStrategy<AName> {
+    let pool = vec!["a", "b", "c", "example", "com", "a"];
+    prop_oneof![
+        1 => Just(AName(vec![])),
+        4 => vec(select(pool.clone()), 1..=4).prop_map(|v| AName(v.into_iter().map(|s| Bytes(s.as_bytes().to_vec())).collect())),
+        6 => (vec(select(vec!["a", "b", "www", "c"]), 0..=2), select(vec![vec!["example", "com"], vec!["com"], vec!["example", "org"], vec!["b", "example", "com"]]), proptest::option::weighted(0.15, select(vec!["a", "x"])))
+            .prop_map(|(lead, tail, extra)| {
+                let mut v: Vec<&str> = lead;
+                v.extend(tail);
+                if let Some(e) = extra { v.push(e); }
+                AName(v.into_iter().map(|s| Bytes(s.as_bytes().to_vec())).collect())
+            }),
+        1 => label().prop_map(|l| AName(vec![l, Bytes(b"example".to_vec()), Bytes(b"com".to_vec())])),
+        1 => long_name(),
+    ]
+    .boxed()
+}
+
+/// where to put filler so that names appear just below, at or above offset 16383
+#[derive(Debug, Clone, PartialEq, Eq, Hash, serde::Serialize, serde::Deserialize)]
+pub struct Sharing {
+    pub packet: APacket,
+    /// opaque filler bytes inserted as leading answer records (0 = none)
+    pub filler: u32,
+    /// index (scaled) in the answer section at which the filler goes
+    pub filler_at: u16,
+}
+
+impl Sharing {
+    pub fn assemble(&self) -> APacket {
+        let mut p = self.packet.clone();
+        if self.filler > 0 {
+            let at = pick(self.filler_at, p.answers.len() + 1);
+            let f = filler(self.filler as usize);
+            for (k, r) in f.into_iter().enumerate() {
+                p.answers.insert(at + k, r);
+            }
+        }
+        fit(p)
+    }
+}
+
+pub fn sharing(t: crate::runner::Tier) -> BoxedStrategy<Sharing> {
+    let (wsmall, wlarge) = t.pick((12, 1), (4, 1));
+    (
+        apacket_n(t.pick(4, 6), share_name()),
+        prop_oneof![
+            wsmall => Just(0u32),
+            wlarge => prop_oneof![16200u32..16500, 15000u32..18000, 30000u32..64000, 1u32..16000],
+        ],
+        any::<u16>(),
+    )
+        .prop_map(|(packet, filler, filler_at)| Sharing { packet, filler, filler_at })
+        .boxed()
 }
